@@ -2,6 +2,7 @@ import Model.Common.Proto
 import Model.C14.Descsum
 import Model.C14.Descriptor
 import Model.C14.Scan
+import Model.C14.Multipath
 import Generated.Descsum
 import Generated.Descriptor
 open Btc
@@ -156,6 +157,13 @@ def handle : List String → String
       | .error .value => "err value"
       | .error .unsupported => "unsupported"
     | _, _, _ => "bad-op"
+  | ["multipath", txt] =>
+    match cps? txt with
+    | some t =>
+      match Desc.multipath t with
+      | some l => "ok " ++ segsOut l
+      | none => "err value"
+    | none => "bad-op"
   | ["scan.index", ranged, last, query, rows] =>
     match bool? ranged, last.toNat?, query.toNat?, rows? rows with
     | some rg, some last, some q, some rows =>
